@@ -28,7 +28,7 @@ func TestMain(m *testing.M) {
 		Rule: "one child process per case evaluates a generated program through repl.EvalStringWithOption with a depth limit (10 .. default), a deadline (1 ms .. 1 s) and GOMEMLIMIT (64 / 128 / 256 MiB; RLIMIT_AS " +
 			"as a safety net, harness kill timer at deadline + 30 s). Program families: non-terminating loops with and without allocation, unbounded direct / mutual / closure / self recursion, growth operators with huge " +
 			"operands and doubling loops (string and array + and *, ranges, map merge, join, runes, split) including products that overflow, deeply nested source text (parentheses, brackets, blocks, lambdas, prefix " +
-			"operators; depth 10^2 .. 2*10^6, source text up to 1 MB), sleep. Oracle: the child exits by itself (no Go fatal error, no signal, no kill timer); wall time <= deadline + 3 s; peak RSS <= 3 x GOMEMLIMIT + 128 MiB; unbounded " +
+			"operators; depth 10^2 .. 2*10^6, source text up to 1 MB), sleep. Oracle: the child exits by itself (no Go fatal error, no signal, no kill timer); the evaluation call returns within deadline + 3 s (timed inside the child); peak RSS <= 3 x GOMEMLIMIT + 128 MiB; unbounded " +
 			"recursion is reported as a 'max depth' failure. Non-trivial: a guard actually fired (deadline, max depth, memory refusal, nesting limit), read from the child's report; distinct by (program, configuration).",
 		Assumptions: []string{
 			"time and memory are measured quantities: the tolerances (3 s, 3x + 128 MiB) are explicit and wide; a case over the time bound is re-run alone twice and only counts when it exceeds every time",
@@ -123,6 +123,8 @@ func judge(c Case, r child.Result) (outcome, error) {
 	if err := json.Unmarshal(r.Stdout, &rep); err != nil {
 		return o, fmt.Errorf("harness: bad child report: %v %q", err, r.Stdout)
 	}
+	// the time the evaluation call itself took, measured inside the child (the process start is not the interpreter's)
+	o.wall = time.Duration(rep.ElapsMs) * time.Millisecond
 	all := strings.Join(rep.Errs, " | ")
 	switch {
 	case strings.Contains(all, "max depth"):
@@ -221,7 +223,7 @@ func nestingForms(n, nb int) []string {
 		nest("[", "1", "]", n),
 		nest("{1:", "1", "}", n),
 		nest("if true {", "1", "}", nb),
-		nest("x=>", "1", "", n),
+		nest("x=>", "1", "", nb), // (nested lambdas are printed indented like blocks)
 		nest("-", "1", "", n),
 		nest("!", "true", "", n),
 		nest("f(", "1", ")", n),
